@@ -259,8 +259,6 @@ def unparse_FormattedValue(node: FormattedValue, qm) -> unparse_gen_t:
         format_spec = ":" + format_spec
     if value[0] == "{":
         value = " " + value
-    if format_spec and format_spec[-1] == "}":
-        format_spec = format_spec + " "
     # f'{{di:ct}:.2f}' (SyntaxError)
     # will be converted as
     # f'{ {di:ct}:.2f}' (Good)
